@@ -218,7 +218,19 @@ func ldbCampaign(r *mon.Run) {
 	par := r.Pick(6, 8)
 	var wg sync.WaitGroup
 	sem := make(chan struct{}, par)
-	for seq := 0; seq < nSeq; seq++ {
+	// sequences whose plan has a multi-batch block that is committed normally
+	var seqs []int
+	for i := 0; len(seqs) < nSeq && i < 50*nSeq; i++ {
+		rng := r.Rand("c03-seq", "ldb", i)
+		newGen(rng, "")
+		for _, sp := range planSequence(rng) {
+			if sp.Kind == "big" && sp.Mode == "normal" && sp.Parent == -2 {
+				seqs = append(seqs, i)
+				break
+			}
+		}
+	}
+	for _, seq := range seqs {
 		seq := seq
 		dir := filepath.Join(mon.WorkDir(), fmt.Sprintf("ldb-%d-count", seq))
 		res := r.RunChild(mon.ChildSpec{Label: "ldb-count", Args: []string{"ldb-run", fmt.Sprint(seq), "0"}, Dir: dir, Timeout: time.Duration(r.Pick(120, 600)) * time.Second})
